@@ -156,12 +156,30 @@ class LoopMixin:
                 s.assume(z3.ForAll([x], z3.Implies(z3.Select(v.e, x), z3.And(0 <= where(x), where(x) < z3.Length(elems.e), elems.e[where(x)] == x))))
                 self.assumptions.add("iteration over a set: modelled as a sequence enumerating exactly its members (order unspecified)")
                 out.append((s, IterDesc(z3.Length(elems.e), (lambda elems, t: lambda i: SV(t, elems.e[i]))(elems, v.t.key))))
+            elif isinstance(v.t, ty.Map):
+                keys = self.map_keys(s, v)
+                out.append((s, IterDesc(z3.Length(keys.e), (lambda keys: lambda i: SV(keys.t.elem, keys.e[i]))(keys))))
             elif isinstance(v.t, ty.Tuple):
                 parts = ops.tuple_parts(v)
                 out.append((s, IterDesc(z3.IntVal(len(parts)), (lambda parts: lambda i: parts[i.as_long() if hasattr(i, "as_long") else i])(parts), len(parts))))
             else:
                 raise Unsupported("iteration over %s" % v.t)
         return out
+
+    def map_keys(self, s, v):
+        """The keys of a dict as a sequence (iteration over the dict, list(d)): every element is a key, every key occurs exactly once
+        (at the witness position where!(key)); the insertion order is not encoded."""
+        keys = ty.fresh(ty.Seq(v.t.key), "keys")
+        q = z3.Int("q!keys%d" % self._fresh())
+        q2 = z3.Int("q2!keys%d" % self._fresh())
+        x = z3.Const("x!keys%d" % self._fresh(), ty.sort_of(v.t.key))
+        where = z3.Function("where_key!%d" % self._fresh(), ty.sort_of(v.t.key), z3.IntSort())
+        present = lambda k: z3.Not(ty.opt_is_none(SV(ty.Opt(v.t.val), z3.Select(v.e, k))))
+        s.assume(z3.ForAll([q], z3.Implies(z3.And(0 <= q, q < z3.Length(keys.e)), present(keys.e[q]))))
+        s.assume(z3.ForAll([x], z3.Implies(present(x), z3.And(0 <= where(x), where(x) < z3.Length(keys.e), keys.e[where(x)] == x)), patterns=[z3.Select(v.e, x)]))
+        s.assume(z3.ForAll([q, q2], z3.Implies(z3.And(0 <= q, q < q2, q2 < z3.Length(keys.e)), keys.e[q] != keys.e[q2])))
+        self.assumptions.add("iteration over a dict / list(dict): an enumeration of the keys, each exactly once; the insertion order is not encoded")
+        return keys
 
     # ---- for -------------------------------------------------------------------------------
     def s_For(self, stmt, st):
